@@ -427,8 +427,83 @@ def gen_derive(rng, w, t):
     m, n = X.size
     tc = X.typecode
     kind = rng.choice(['T', 'H', 'real', 'imag', 'abs', 'neg', 'pos', 'add', 'sub', 'mul', 'smul', 'sdiv', 'get1', 'get2', 'get2',
-                       'sparse', 'spdiag', 'addnum', 'copy', 'dup', 'emul', 'blocks', 'sum', 'attrs', 'attrs'])
+                       'sparse', 'spdiag', 'addnum', 'copy', 'dup', 'emul', 'blocks', 'sum', 'attrs', 'attrs',
+                       'trans', 'ctrans', 'emax', 'emin', 'ediv', 'gblocks', 'gblocks', 'gdiag', 'ctor', 'ctor', 'rsubnum', 'mulnum'])
     nm = w.fresh()
+    if kind in ('emax', 'emin', 'ediv'):
+        if rng.random() < 0.3:
+            return ['derive', nm, kind, t, {'k': 'num', 'v': rng.choice([1.0, -1.0, 2.0, 0.5, 0.0, -2.0] if kind != 'ediv' else [1.0, -1.0, 2.0, 0.5, 4.0])}]
+        cands = [q for q in w.names() if w.env[q]['X'].size == X.size]
+        if kind == 'ediv':
+            # a dense divisor without zeros whose entries are exactly invertible
+            cands = [q for q in cands if not w.env[q]['sparse'] and all(abs(v) in (1, 2, 4, 0.5) for v in w.env[q]['X'])]
+            if not cands or rng.random() < 0.1:
+                cands = [q for q in w.names() if w.env[q]['X'].size == X.size and w.env[q]['sparse']] or [t]
+        return ['derive', nm, kind, t, {'k': 'ref', 'name': rng.choice(cands) if cands else t}]
+    if kind == 'gblocks':
+        # sparse() of a general list of block columns: sparse and dense matrices of the pool and numbers
+        names = w.names()
+
+        def block_col(width, height=None):
+            cands = [q for q in names if w.env[q]['X'].size[1] == width]
+            col, h = [], 0
+            for _ in range(rng.randint(1, 3)):
+                if width == 1 and rng.random() < 0.2:
+                    col.append({'k': 'num', 'v': rint(rng, 'd')})
+                    h += 1
+                elif cands:
+                    pick = rng.choice(cands)
+                    if height is not None:
+                        fit = [q for q in cands if w.env[q]['X'].size[0] == height - h]
+                        if fit and rng.random() < 0.85:
+                            pick = rng.choice(fit)
+                    col.append({'k': 'ref', 'name': pick})
+                    h += w.env[pick]['X'].size[0]
+                if height is not None and h >= height:
+                    break
+            if not col:
+                col, h = [{'k': 'ref', 'name': t}], m
+            return col, h
+        first, h = block_col(n)
+        cols = [first]
+        for _ in range(rng.choice([0, 0, 1, 1, 2])):
+            c, _h = block_col(rng.choice([n, 1, w.env[rng.choice(names)]['X'].size[1]]), h)
+            cols.append(c)
+        return ['derive', nm, 'gblocks', t, cols, bool(rng.random() < 0.25 and len(cols) == 1), rng.choice([None, None, None, 'd', 'z'])]
+    if kind == 'gdiag':
+        items = []
+        for _ in range(rng.randint(1, 3)):
+            r_ = rng.random()
+            if r_ < 0.3:
+                items.append({'k': 'num', 'v': rint(rng, rng.choice(['d', 'd', 'z']))})
+            else:
+                sq = [q for q in w.names() if w.env[q]['X'].size[0] == w.env[q]['X'].size[1] or w.env[q]['X'].size[1] == 1]
+                items.append({'k': 'ref', 'name': rng.choice(sq) if sq and rng.random() < 0.9 else rng.choice(w.names())})
+        single = len(items) == 1 and items[0]['k'] == 'ref' and rng.random() < 0.5     # spdiag(x) with x a vector
+        return ['derive', nm, 'gdiag', t, items, single]
+    if kind == 'ctor':
+        # the spmatrix constructor in its documented variants
+        mm, nn = rng.randint(0, 4), rng.randint(0, 4)
+        cnt = rng.randint(0, 6) if mm * nn else 0
+        I = [rng.randrange(mm) for _ in range(cnt)]
+        J = [rng.randrange(nn) for _ in range(cnt)]
+        vt = rng.choice(['d', 'd', 'z', 'i'])
+        form = rng.choice(['list', 'list', 'scalar', 'matrix', 'nosize', 'badlen', 'oor', 'neg', 'tc', 'tc_i'])
+        V = [rint(rng, 'd' if vt == 'i' else vt) for _ in range(cnt)]
+        if vt == 'i':
+            V = [int(v) for v in V]
+        if form == 'oor' and cnt:
+            k_ = rng.randrange(cnt)
+            if rng.random() < 0.5:
+                I[k_] = mm
+            else:
+                J[k_] = nn
+        if form == 'neg' and cnt:
+            I[rng.randrange(cnt)] = -1
+        return ['derive', nm, 'ctor', t, {'form': form, 'm': mm, 'n': nn, 'I': I, 'J': J, 'V': V, 'scalar': rint(rng, 'd'),
+                                          'tc': rng.choice(['d', 'z'])}]
+    if kind in ('rsubnum', 'mulnum'):
+        return ['derive', nm, kind, t, {'k': 'num', 'v': rint(rng, tc if rng.random() < 0.8 else 'z')}]
     if kind == 'dup':
         # triplets with repeated positions: the values are added
         mm, nn = rng.randint(1, 4), rng.randint(1, 4)
@@ -468,6 +543,14 @@ class Mismatch(Exception):
     def __init__(self, oracle, detail, **sig):
         Exception.__init__(self, detail)
         self.oracle, self.detail, self.sig = oracle, detail, sig
+
+
+def builtins_max_abs(vals):
+    m = 0.0
+    for v in vals:
+        if abs(v) > m:
+            m = abs(v)
+    return m
 
 
 def both(opname, fs, fd, **extra):
@@ -604,6 +687,14 @@ def apply(op, w, stats):
     missing = [a for a in op[1:] if isinstance(a, str) and a.startswith('o') and a[1:].isdigit() and a not in env]
     if kind == 'derive':
         missing = [a for a in op[3:] if isinstance(a, str) and a.startswith('o') and a[1:].isdigit() and a not in env]
+    if kind == 'derive':
+        def refs_in(o):
+            if isinstance(o, dict):
+                return [o['name']] if o.get('k') == 'ref' else []
+            if isinstance(o, list):
+                return [r for x in o for r in refs_in(x)]
+            return []
+        missing += [a for a in refs_in(op[4:]) if a not in env]
     if missing:
         return          # shrinking removed the operand
     if kind in ('set1', 'set2'):
@@ -874,7 +965,8 @@ def apply(op, w, stats):
                     raise Mismatch('attributes-inconsistent', 'cvxopt.max/min = %r/%r, the dense image has %r/%r' %
                                    (cvxopt.max(X), cvxopt.min(X), builtins.max(D), builtins.min(D)), op='derive.attrs')
             probe = Vv[0] if Vv else 7.0
-            if (probe in X) != (probe in Vv) or (99.0 in X):
+            absent = 1.5 + builtins_max_abs(Vv)
+            if (probe in X) != (probe in Vv) or (absent in X):
                 raise Mismatch('attributes-inconsistent', "'in' disagrees with the stored values", op='derive.attrs')
             return
         elif dk == 'sum':
@@ -915,6 +1007,145 @@ def apply(op, w, stats):
         elif dk == 'get2':
             fs, fd = (lambda: X[mkidx(op[4]), mkidx(op[5])]), (lambda: D[mkidx(op[4]), mkidx(op[5])])
             expect_sparse = not (op[4]['k'] == 'int' and op[5]['k'] == 'int')
+        elif dk == 'trans':
+            fs, fd = (lambda: X.trans()), (lambda: D.trans())
+        elif dk == 'ctrans':
+            fs, fd = (lambda: X.ctrans()), (lambda: D.ctrans())
+        elif dk in ('emax', 'emin', 'ediv'):
+            import cvxopt
+            if op[4]['k'] == 'num':
+                Y = Yd = mk(op[4])
+                other_sparse = False
+            else:
+                o = env[op[4]['name']]
+                Y, Yd = o['X'], (o['D'] if o['sparse'] else o['X'])
+                other_sparse = o['sparse']
+            if X.typecode == 'z' or getattr(Y, 'typecode', 'd') == 'z' or isinstance(Y, complex):
+                return        # no order on complex numbers; complex quotients are not exact
+            f = {'emax': cvxopt.max, 'emin': cvxopt.min, 'ediv': cvxopt.div}[dk]
+            fs, fd = (lambda: f(X, Y)), (lambda: f(D, Yd))
+            # max/min of two sparse matrices is sparse, with a dense matrix or a number dense; the quotient
+            # of a sparse matrix by a dense matrix or a number is sparse (division by a sparse matrix is refused)
+            expect_sparse = other_sparse if dk != 'ediv' else True
+            if dk == 'ediv' and other_sparse:
+                def fd():       # noqa
+                    raise TypeError('elementwise division with sparse matrix')
+        elif dk == 'gblocks':
+            cols, flat, tcx = op[4], op[5], op[6]
+            rc, dc = [], []
+            for col in cols:
+                a, b = [], []
+                for it in col:
+                    if it['k'] == 'num':
+                        a.append(mk(it))
+                        b.append(mk(it))
+                    else:
+                        o = env[it['name']]
+                        a.append(o['X'])
+                        b.append(o['D'] if o['sparse'] else o['X'])
+                rc.append(a)
+                dc.append(b)
+            if flat and all(not isinstance(x, (matrix, spmatrix)) for x in rc[0]):
+                return
+            kw = {'tc': tcx} if tcx is not None else {}
+            # the dense image is built with the dense constructor; an all-'i' image cannot arise (sparse is d or z)
+            fs = (lambda: sparse(rc[0] if flat else rc, **kw))
+
+            def fd():
+                R = matrix(dc[0] if flat else dc, **kw)
+                return matrix(R, tc='d') if R.typecode == 'i' else R
+        elif dk == 'gdiag':
+            items, single = op[4], op[5]
+            ra, da = [], []
+            for it in items:
+                if it['k'] == 'num':
+                    ra.append(mk(it))
+                    da.append(mk(it))
+                else:
+                    o = env[it['name']]
+                    ra.append(o['X'])
+                    da.append(o['D'] if o['sparse'] else o['X'])
+            if single and da[0].size[0] * da[0].size[1] == 0:
+                return        # spdiag of an empty vector: not specified (refused; spdiag([]) is 0x0)
+            fs = (lambda: spdiag(ra[0] if single else ra))
+
+            def fd():
+                # the documented meaning, in plain Python: a vector argument is a list of its entries;
+                # list items are numbers or square matrices placed along the diagonal
+                isvec = single and isinstance(da[0], matrix) and 1 in da[0].size      # a single row or column
+                blocks_ = list(da[0]) if isvec else ([da[0]] if single else da)
+                if single and not isvec:
+                    raise TypeError('spdiag of a single non-vector argument')
+                tcr = 'd'
+                k = 0
+                for b in blocks_:
+                    if isinstance(b, matrix):
+                        if b.size[0] != b.size[1]:
+                            raise TypeError('the elements in diag must be square')
+                        k += b.size[0]
+                        if b.typecode == 'z':
+                            tcr = 'z'
+                    else:
+                        k += 1
+                        if isinstance(b, complex):
+                            tcr = 'z'
+                R = matrix(0, (k, k), tcr)
+                k = 0
+                for b in blocks_:
+                    if isinstance(b, matrix):
+                        R[k:k + b.size[0], k:k + b.size[0]] = b
+                        k += b.size[0]
+                    else:
+                        R[k, k] = b
+                        k += 1
+                return R
+        elif dk == 'ctor':
+            c = op[4]
+            form, mm, nn = c['form'], c['m'], c['n']
+            I, J, V = list(c['I']), list(c['J']), [num(v) for v in c['V']]
+            size = (mm, nn)
+            kwt = {}
+            if form == 'scalar':
+                Varg = num(c['scalar'])
+                V = [Varg] * len(I)
+            elif form == 'matrix':
+                Varg = matrix(V, (len(V), 1), 'z' if any(isinstance(v, complex) for v in V) else 'd') if V else V
+                I, J = (matrix(I, (len(I), 1), 'i') if I else I), (matrix(J, (len(J), 1), 'i') if J else J)
+            else:
+                Varg = V
+            if form == 'badlen' and len(I):
+                I = list(I)[:-1]
+            if form in ('tc', 'tc_i'):
+                kwt = {'tc': c['tc'] if form == 'tc' else 'i'}
+
+            def fs():
+                if form == 'nosize':
+                    return spmatrix(Varg, I, J, **kwt)
+                return spmatrix(Varg, I, J, size, **kwt)
+
+            def fd():
+                Il, Jl = list(I), list(J)
+                if len(Il) != len(Jl) or (form != 'scalar' and len(V) != len(Il)):
+                    raise TypeError('I, J, V must have the same length')
+                if kwt.get('tc') == 'i':
+                    raise TypeError("tc must be 'd' or 'z'")
+                m_, n_ = size if form != 'nosize' else ((max(Il) + 1 if Il else 0), (max(Jl) + 1 if Jl else 0))
+                if any(i < 0 or i >= m_ for i in Il) or any(j < 0 or j >= n_ for j in Jl):
+                    raise TypeError('index out of range')
+                tcr = kwt.get('tc') or ('z' if any(isinstance(v, complex) for v in V) else 'd')
+                if tcr == 'd' and any(isinstance(v, complex) for v in V):
+                    raise TypeError('cannot cast')
+                R = matrix(0, (m_, n_), tcr)
+                for i, j, v in zip(Il, Jl, V):
+                    R[i, j] += v
+                return R
+        elif dk in ('rsubnum', 'mulnum'):
+            v = mk(op[4])
+            if dk == 'rsubnum':
+                fs, fd = (lambda: v - X), (lambda: v - D)
+                expect_sparse = False
+            else:
+                fs, fd = (lambda: X * v), (lambda: D * v)
         elif dk == 'sparse':
             fs, fd = (lambda: sparse([[X, X], [X, X]]) if X.size[0] * X.size[1] else sparse(X)), \
                      (lambda: matrix([[D, D], [D, D]]) if D.size[0] * D.size[1] else +D)
